@@ -626,6 +626,16 @@ fn build_date_to(pair: Pair<Rule>, from: ds::Date) -> Result<ds::Date> {
 
                         if month == ds::Month::January {
                             if let Some(x) = year.as_mut() {
+                                if *x >= 9999 {
+                                    // Years after 9999 can't be expressed: the range ends with
+                                    // the last supported day.
+                                    return Ok(ds::Date::Fixed {
+                                        year: Some(9999),
+                                        month: ds::Month::December,
+                                        day: 31,
+                                    });
+                                }
+
                                 *x += 1
                             }
                         }
